@@ -457,3 +457,68 @@ def replay_wrap(case, ctx):
                   "wrap/%s/replay-accepted-k%d" % (proto, k))
     finally:
         s.finish()
+
+
+maxpad_case = st.fixed_dictionaries({"proto": st.sampled_from(["tlcp", "tls12"]), "dir": st.sampled_from(["c2s", "s2c"]), "seed": st.integers(0, 1 << 20),
+                                     "n": st.sampled_from([16384, 16384, 16383, 16369, 16352, 16000, 8192, 100, 1]), "padsel": st.integers(0, 15),
+                                     "buf": st.sampled_from([20000, 16384, 4096, 100])})
+_STABLE_FIELDS = ("protocol", "is_client", "cipher_suite", "session_id", "session_id_len", "server_certs_len", "client_certs_len", "ca_certs_len",
+                  "master_secret", "key_block", "verify_result")
+
+
+@P.sub("maxpad", maxpad_case, quick=64, thorough=3000, chunk=4)
+def maxpad(case, ctx):
+    """live CBC connection: an application record re-protected in flight with the same keys and sequence number but any legal padding length
+    up to 255 (what another implementation may send) is delivered intact, and reading it changes no field of the connection object that
+    reading must not change (the plaintext buffer lives inside that object)"""
+    proto, d, n = case["proto"], case["dir"], case["n"]
+    shim().freeze_time(pki.T0)
+    state = {"armed": False, "keys": None, "seq": None, "hit": 0, "padlen": None}
+    payload = _bytes("maxpad%d" % case["seed"], n)
+
+    def hook(rec):
+        if not state["armed"] or rec.dir != d or rec.raw[0] != 23:
+            return [rec.raw]
+        state["armed"] = False
+        mac_key, enc_key = state["keys"]
+        ver = rec.raw[1:3]
+        minpad = (-(n + 32 + 1)) % 16
+        padlen = minpad + 16 * (case["padsel"] % ((255 - minpad) // 16 + 1))
+        if case["padsel"] == 15:
+            padlen = minpad + 16 * ((255 - minpad) // 16)          # the largest legal value
+        state["padlen"] = padlen
+        body = R.cbc_hmac_protect(mac_key, enc_key, state["seq"], 23, ver, payload, _bytes("maxpad-iv%d" % case["seed"], 16), padlen)
+        if len(body) > 16384 + 2048:
+            return [rec.raw]
+        state["hit"] = 1
+        return [bytes([23]) + ver + len(body).to_bytes(2, "big") + body]
+    s = net.Session(ctx.variant, proto, _pki(proto), hook=hook, seed=case["seed"], quiet_ms=None)
+    try:
+        rc, rs = s.start()
+        hc, hs = s.handshake(timeout=30.0)
+        if hc[0] == "timeout" or hs[0] == "timeout":
+            ctx.note("inconclusive-timeout"); return
+        ctx.check(hc[1] == 1 and hs[1] == 1, "handshake failed %s %s" % (hc, hs), "live/handshake")
+        snd, rcv = (s.client, s.server) if d == "c2s" else (s.server, s.client)
+        kb = snd.field("key_block")
+        state["keys"] = (kb[0:32], kb[64:80]) if d == "c2s" else (kb[32:64], kb[80:96])
+        state["seq"] = snd.field("client_seq_num" if d == "c2s" else "server_seq_num")
+        before = {f: rcv.field(f) for f in _STABLE_FIELDS}
+        state["armed"] = True
+        r = snd.do("send", payload)
+        ctx.check(r[1] == 1 and r[2] == n, "send failed %r" % (r,), "live/send")
+        r2 = rcv.do("recv_n", n, [case["buf"]], timeout=30.0)
+        if r2[0] == "timeout":
+            ctx.note("inconclusive-timeout"); return
+        ctx.case(nontrivial=bool(state["hit"]), classes=[proto, d, "n=%d" % n, "padlen=%s" % (state["padlen"] if state["padlen"] is None else state["padlen"] // 64 * 64)],
+                 ident=case, sample=dict(case, padlen=state["padlen"]))
+        if not state["hit"]:
+            return
+        ctx.check(r2[1] is None and r2[2] == payload, "%s: a %d-byte record protected with padding length %d (same keys and sequence number) is not delivered intact: %s" %
+                  (proto, n, state["padlen"], "read failed %s" % (r2[1],) if r2[1] is not None else "content differs"), "maxpad/%s/delivery" % proto)
+        after = {f: rcv.field(f) for f in _STABLE_FIELDS}
+        for f in _STABLE_FIELDS:
+            ctx.check(before[f] == after[f], "%s: receiving a %d-byte record with padding length %d changed the connection field '%s' (%s -> %s): the plaintext "
+                      "was written outside its buffer" % (proto, n, state["padlen"], f, before[f][:16].hex(), after[f][:16].hex()), "maxpad/%s/field/%s" % (proto, f))
+    finally:
+        s.finish()
